@@ -59,31 +59,58 @@ void Runner::on_poll(Thread *t, const pollfd_sim *, size_t, int timeout) {
   int64_t bound = -1;  // -1 unbounded
   auto upd = [&](int64_t v) { if (v < 0) v = 0; if (bound < 0 || v < bound) bound = v; };
   std::string what;
+  HState *h = op.h >= 0 && (size_t) op.h < hs.size() ? &hs[(size_t) op.h] : nullptr;
   if (op.kind == OP_POLL) {
     if ((int) op.a >= 0) upd(op.a);
     for (size_t i = 0; i + 1 < op.v.size(); i += 2) {
       int hi = (int) op.v[i];
       if (hi < 0 || (size_t) hi >= hs.size()) continue;
-      HState &h = hs[(size_t) hi];
-      if (h.st != LS_RUNNING && h.st != LS_EXITED) continue;
-      if (h.dl_hi_ms >= 0) upd(h.dl_hi_ms - clk);
+      HState &hh = hs[(size_t) hi];
+      if (hh.st != LS_RUNNING && hh.st != LS_EXITED) continue;
+      if (hh.dl_hi_ms >= 0) upd(hh.dl_hi_ms - clk);
     }
     what = "sources=" + source_pattern(this, op, clk) + fmt("/timeout=%s", (int) op.a < 0 ? "inf" : "finite");
   } else if (op.kind == OP_WAIT) {
-    HState *h = op.h >= 0 && (size_t) op.h < hs.size() ? &hs[(size_t) op.h] : nullptr;
     int T = (int) op.a;
     if (T >= 0) upd(T);
     else if (T == C.DEADLINE_ && h && h->dl_hi_ms >= 0) upd(h->dl_hi_ms - clk);
     what = fmt("wait/timeout=%s", T >= 0 ? "finite" : T == C.DEADLINE_ ? "deadline" : "inf");
   } else if (op.kind == OP_DRAIN) {
-    HState *h = op.h >= 0 && (size_t) op.h < hs.size() ? &hs[(size_t) op.h] : nullptr;
     if (h && h->dl_hi_ms >= 0) upd(h->dl_hi_ms - clk);
     what = "drain";
+  } else if (op.kind == OP_STOP || (op.kind == OP_DESTROY && h && h->st == LS_RUNNING)) {
+    // every wait of a stop sequence is one of its steps: the blocking call may be unbounded only if a step asks for it,
+    // and never longer than the longest step
+    int st[6];
+    if (op.kind == OP_STOP) { st[0] = (int) op.a; st[1] = (int) op.b; st[2] = (int) op.c; st[3] = (int) op.d; st[4] = (int) op.e; st[5] = (int) op.f; }
+    else memcpy(st, h->stop, sizeof st);
+    if (st[0] == C.S_NOOP && st[2] == C.S_NOOP && st[4] == C.S_NOOP) { st[0] = C.S_WAIT; st[1] = C.DEADLINE_; st[2] = C.S_TERMINATE; st[3] = C.INFINITE_; }
+    bool inf_ok = false;
+    int64_t longest = 0;
+    for (int i = 0; i < 3; i++) {
+      int a = st[2 * i], to = st[2 * i + 1];
+      if (a == C.S_NOOP) continue;
+      if (to == C.INFINITE_ || (to < 0 && to != C.DEADLINE_)) inf_ok = true;
+      else if (to == C.DEADLINE_) { if (!h || h->dl_hi_ms < 0) inf_ok = true; else longest = std::max<int64_t>(longest, std::max<int64_t>(0, h->dl_hi_ms - clk)); }
+      else longest = std::max<int64_t>(longest, to);
+    }
+    if (!inf_ok) bound = longest;
+    const char *pr = op.kind == OP_STOP ? "C07" : "C15";
+    if (bound >= 0 && (timeout < 0 || timeout > bound))
+      viol(pr, "stop-wait-exceeds-its-timeout", fmt("actions=%d,%d,%d/requested=%s", st[0], st[2], st[4], timeout < 0 ? "infinite" : "finite"),
+           fmt("a wait of the stop sequence was issued with timeout %d ms although no step allows more than %lld ms", timeout, (long long) bound), t->op);
+    return;
   } else return;
   if (bound < 0) return;
+  if (cx.polls == 1) cx.limit_ns = K->now_ns + bound * 1000000 + 1000000 + (K->now_ns - octx_t0(t));
   if (timeout < 0 || timeout > bound)
     viol("C08", "blocks-past-bound", what,
          fmt("the blocking poll was issued with timeout %d ms although the call may wait at most %lld ms (timeout/earliest deadline)", timeout, (long long) bound), t->op);
+  else if (cx.polls > 1 && op.kind != OP_DRAIN && K->now_ns + (int64_t) timeout * 1000000 > cx.limit_ns + 1000000)
+    viol("C08", "blocks-past-bound", what + "/repeated-poll",
+         fmt("poll number %d of this call was issued with timeout %d ms, %.3f ms after the first one: together they exceed the bound", cx.polls, timeout,
+             (double) (K->now_ns - cx.first_poll_ns) / 1e6), t->op);
+  if (cx.polls == 1) cx.first_poll_ns = K->now_ns;
 }
 
 void Runner::on_poll_return(Thread *t, const pollfd_sim *, size_t, int) {
@@ -173,6 +200,11 @@ void Runner::op_poll(Thread *t, int idx, const Op &op_in, OpRes &res) {
       if (src[i].events == 0) continue;
       cnt++;
       if (src[i].events != C.E_DEADLINE || !hv[i] || hv[i]->dl_lo_ms < 0 || hv[i]->dl_lo_ms > t1ms) oksrc = false;
+    }
+    for (size_t i = 0; i < n; i++) {
+      int ev = src[i].events;
+      if (ev & ~(src[i].interests | C.E_DEADLINE) & 0x1f || (ev & (C.E_IN | C.E_OUT | C.E_ERR | C.E_EXIT)) || (ev & ~0x1f))
+        viol("C09", "false-event", "path=expired-deadline", fmt("source %zu carries events %#x although poll returned because a deadline had expired (stale or unrequested events)", i, ev), idx);
     }
     if (v != 1 || cnt != 1 || !oksrc)
       viol("C08", "expired-deadline-not-reported", "sources=" + pat, fmt("a deadline had already expired but poll returned %s", en(v).c_str()), idx);
